@@ -46,13 +46,13 @@ BOUNDS = (
     "cache none/Cache/LRUCache, lifetime 5/timeout 2 and lifetime 1/timeout 0.5 with 0.25 s steps so that the "
     "lifetime boundary is hit exactly).  Quick: 26 covering settings, depth 3 (depth 2 for 3-server or cached "
     "settings except every third), ~9.7k scripts.  Thorough: depth 3 on the full 2^6 x 3 = 192 grid (stops "
-    "after 300 s; ~180 settings reached), then depth 4 on the 26 settings (stops at 440 s; ~10 reached).  "
+    "after 300 s; 158-183 settings reached in the measured runs), then depth 4 on the 26 settings (stops at 440 s; 11 reached).  "
     "Each cached setting is followed by a second resolution 10 s later (inside the TTL) and a third after "
     "expiry, on the same resolver.  Seeded: random settings (also 4 servers, absolute names, ndots 0-3, "
     "domain-as-search-list, search=None/False, rdtypes A/AAAA/MX/TXT/CNAME, source/source_port) and scripts "
     "of length <= 14 with CNAME chains 0-18 and CNAME loops, random TTLs and SOA placement, rcodes "
     "1/4/5/9/10, BadResponse/EOFError variants, NXDOMAIN-with-answer, clock steps in "
-    "{0,0.01,0.25,0.5,1,1.99} (1200 quick; until 530 s thorough, ~20k).  Direct: _get_qnames_to_try on 1-4 "
+    "{0,0.01,0.25,0.5,1,1.99} (1200 quick; until 530 s thorough, 11k-24k in the measured runs).  Direct: _get_qnames_to_try on 1-4 "
     "label names x absolute/relative x search arg x default x 3 search lists x 2 domains x ndots {None,0..4} "
     "(exhaustive, 1728); resolve_chaining on chain lengths 0-18 x {answer, no-data, NXDOMAIN, "
     "NXDOMAIN+answer} x 5 TTL patterns x 3 answer/SOA TTL sets, shuffled answer sections, CNAME loops, QR "
